@@ -7,12 +7,12 @@ From VB Require Import Base IR Sem Tables BaseFacts FileModel FileFacts.
 From VB Require Import Classes Consts Common FileDefs FileEq.
 Local Open Scope Z_scope.
 
-Theorem C05_header : forall deflate cfg hdr objs f, f_write_session deflate cfg hdr objs = Ok f ->
+Theorem C05_header : forall deflate cap cfg hdr objs f, f_write_session deflate cap cfg hdr objs = Ok f ->
   let U := concat (map fst objs) in
   exists ps conts hdr' hbytes h0 h00 hbytes0,
     f = hbytes ++ concat conts /\
-    enc cs default_cap C_stats hdr' = Ok (h0, hbytes) /\ enc cs default_cap C_stats hdr = Ok (h00, hbytes0) /\
-    Forall2 (fun p c => lce deflate (w_level cfg) p = Ok c) (if w_restore cfg then ps ++ [[]] else ps) conts /\
+    enc cs cap C_stats hdr' = Ok (h0, hbytes) /\ enc cs cap C_stats hdr = Ok (h00, hbytes0) /\
+    Forall2 (fun p c => lce deflate cap (w_level cfg) p = Ok c) (if w_restore cfg then ps ++ [[]] else ps) conts /\
     ps = pieces (length U) (w_cs cfg) U /\ concat ps = U /\
     (* object count: the objects written, restore-point objects (type 115) excluded *)
     hdr' (fid_of "FileStatistics" "objectCount") = VInt (Z.of_nat (length (filter snd objs)) mod 2 ^ 32) /\
